@@ -183,7 +183,7 @@ def check(run):
         run.violation("strings;%s;chars=%s" % (",".join(kinds), ",".join(chars)), "case %d tags %s" % (r["case"], tags[:6]),
                       {"case": loadfam._shrink(c, 60000), "tags": tags[:50], "event": loadfam._shrink(builds.get(r["case"])),
                        "dir": os.path.join(wd, "p%05d" % r["case"])})
-    run.notes["serverfn_answers"] = run_serverfn(run, projects, wd, cases_path, load_trace, 1 if quick else 4, 1 if quick else 4)
+    run.notes["serverfn_answers"] = run_serverfn(run, projects, wd, cases_path, load_trace, 1 if quick else 8, 1 if quick else 8)
     run.samples = [{"strings": projects[0]["abs"]["values"][:5]}]
     run.exhaustive = True
     run.notes["strings"] = len(strings)
